@@ -97,6 +97,9 @@ def eval_case(item):
     if got is None:
         return "bound-name-not-resolved"
     if got != expected:
+        kind_of = {f'"M{i}"': k for i, k in enumerate(frames)}
+        if kind_of.get(got) == "with" and kind_of.get(expected) in ("let", "rec", "lambda"):
+            return "with-environment-shadows-an-enclosing-lexical-binder"
         return "resolved-to-the-wrong-binding"
     return None
 
@@ -222,6 +225,10 @@ def run(tier, seed):
             if sym.startswith("harness"):
                 raise RuntimeError(sym)
             sig = f"{sym}|{shape_sig(frames, binds)}"
+            if sym.startswith("with-environment-shadows"):
+                sig = sym  # one defect: precedence of `with` (see known_findings.json)
+                if sig in vio:
+                    continue
             text, expected = build(frames, binds)
             vio[sig] = dict(check="scoping", signature=sig, what=f"C10 {sym}: nesting {shape_sig(frames, binds)} (expected {expected})",
                             has_input=True, inputs={"frames": frames, "binds": binds, "text": text},
